@@ -114,6 +114,15 @@ class FillComputeSeq(lena_sequence.LenaSequence):
         # to do: do we check for exceptions like above
         # or skip like here?
         self._after = sequence.Sequence(*after)
+        # The sequences above consist of data elements only. While they
+        # were built, these elements were set static context without
+        # the context elements of this sequence
+        # (see LenaSequence.__init__).
+        # Set the context of the complete sequence again.
+        try:
+            self._set_context({})
+        except exceptions.LenaKeyError:
+            pass
 
     def fill(self, value):
         """Fill *self* with *value*.
